@@ -221,8 +221,12 @@ def law_vector(rng, fam, extreme=False):
             feats.append("negative-location")
         return [R(mu, st1), R(b, st2)], [mu, b], feats
     if fam == "Beta":
-        a, st1 = rand_pos(rng, "lt1" if extreme else rng.choice(["int", "int", "frac", "dec", "lt1"]))
-        b, st2 = rand_pos(rng, rng.choice(["int", "int", "frac", "dec", "lt1"]))
+        if not extreme and rng.random() < 0.45:
+            a, st1 = rand_pos(rng, "int")
+            b, st2 = rand_pos(rng, "int")
+        else:
+            a, st1 = rand_pos(rng, "lt1" if extreme else rng.choice(["int", "frac", "dec", "lt1"]))
+            b, st2 = rand_pos(rng, rng.choice(["int", "frac", "dec", "lt1"]))
         if a < 1 or b < 1:
             feats.append("shape<1")
         if a.denominator == 1 and b.denominator == 1:
